@@ -28,6 +28,15 @@ CHECKS = {
     'C03': dict(engine='tlc-eaosolve', technique='TLC decides, for every recorded optimize() call, whether the recorded response is an enabled action of the EAOSolve specification (feasibility by row class, value, optimality / infeasibility by lattice enumeration)', cat='model_checking', ref='DESIGN.md 4 (C03), 2.4',
                 text='Real OptimProblem.optimize calls on tiny integral programs (all four row classes, booleans with non-0/1 bounds, duplicated mapping rows, infeasible programs, split concatenation) with every installed solver are recorded; TLC enumerates the lattice of each program and checks that a reported solution satisfies bounds / rows by class / booleans, that value = -c.x, that no lattice point is better, and that a reported failure comes with an empty feasible set.',
                 note='Programs have integral polytopes (interval rows) or integer variables so lattice enumeration is exact; ortools/CPLEX not installed; trusted: TLC.'),
+    'C01': dict(engine='tlc-eaomodel', technique=P_TECH + '; light TLA+ abstraction Trace_Portfolio for all asset types and routes', cat='model_checking', ref='DESIGN.md 4 (C01)',
+                text='Balance is a guard of Step and the invariant BalanceInv of the TLA+ model; balanced lattice schedules are replayed (accepted), every imbalance of exactly one unit at one node and step (also through the second row of transports / commodity factors) must be infeasible; the reported dispatch of optimised runs is validated step by step (Trace_EAOModel for the reference families incl. split; Trace_Portfolio -- flows and attachment only -- for a zoo of 16 portfolios over all asset types along the routes monolithic, split, io.optimize).',
+                note=P_NOTE + ' Structured assets are checked at their external nodes (as the statement says).'),
+    'C04': dict(engine='tlc-eaomodel', technique=P_TECH + '; Trace_Portfolio accounting clauses for all asset types and routes', cat='model_checking', ref='DESIGN.md 4 (C04)',
+                text='ValDef (val = sum of per-asset sums of per-step cash flows) is a TLC invariant of the model; per-asset -c_a.x_a equals the model cash flow of that asset on EVERY replayed lattice behaviour; optimised runs are trace-validated: reported value = sum of the DCF table, per-asset DCF total = -c_a.x_a = the model total (discounting, order books, holding costs, split); the same accounting clauses are evaluated by TLC for the zoo of all asset types (scaled, structured, linked, periodic, coarse, CHP) along mono/split/io routes.',
+                note=P_NOTE + ' The step on which a cash flow is booked is not compared (not part of the statement).'),
+    'C07': dict(engine='tlc-eaoassembly', technique='TLC on the TLA+ model of the index algorithm (EAOAssembly; three labelling rules, adversarial names, unmapped variables) + TLC evaluation of every C07 clause on assembly traces recorded from the real code (Trace_EAOAssembly)', cat='model_checking', ref='DESIGN.md 4 (C07), 2.3',
+                text='Design level: TLC proves LabelInRange/LabelInjective/LabelIsPosition for the rule the code uses and must find the counterexamples of the pre-repair key rule (anti-vacuity). Code level: per-asset problems and the assembled problem of every zoo portfolio (all asset types incl. scale variables, booleans, periodic merge with duration, coarse grids), adversarial name sets, order books with out-of-horizon orders and reference families are logged as tables; TLC checks sizes, label range, ownership (rows, cost, bounds per variable), injectivity, embedding of asset rows, inert unmapped variables, l<=u/NaN, steps on grid, exactly one nodal row per (node, step) with dispatch.',
+                note='Per-asset problems are obtained through the public per-asset set-up with the same prices/grid; fixed point 1e-3; trusted: TLC.'),
 }
 
 ENGINES = [
@@ -37,6 +46,8 @@ ENGINES = [
          kind_free_text='TLA+ automaton of Plant/CHP unit commitment (EAOUCGuards, EAOUnitCommit, Trace_EAOUnitCommit) enumerated by TLC; patterns/behaviours replayed into the real MIP; optimised runs trace-validated'),
     dict(name='tlc-eaosolve', path='spec/EAOSolve.tla', serves_properties=['C03'],
          kind_free_text='TLA+ contract of the optimiser (ReturnSolution / ReturnFailure / ReturnInaccurate enabledness) evaluated by TLC on recorded calls'),
+    dict(name='tlc-eaoassembly', path='spec/EAOAssembly.tla', serves_properties=['C07'],
+         kind_free_text='TLA+ model of the index/mapping algorithm + Trace_EAOAssembly evaluating the C07/C15 clauses on tables logged from the real assembly'),
 ]
 
 NOT_APPLICABLE = []
